@@ -187,6 +187,8 @@ class Interp:
         else:
             out = True
         self.taken.append(out)
+        if isinstance(value, VNum) and value.kind != "bool" and value.term is not None:
+            value = VNum("bool", T.app("cmp_NotEq", value.term, T.ZERO))  # truthiness of a number
         if skey is not None:
             self.sticky_memo[skey] = out
         self.conds.append((self.site(node), desc or (ast.unparse(node) if node is not None else "?"), out, value))
